@@ -8,6 +8,9 @@ def run(ctx):
     ctx.rule("R-SEND-SRC", "the source address that reaches the sink is the held address (254 for the claim request)", floor=4)
     ctx.rule("R-CLAIM-ONLY", "the unguarded sender can emit nothing but address-claimed / cannot-claim frames", floor=2)
     ctx.rule("R-NORMAL-PAIR", "state NORMAL and the held address are stored together; losing the address leaves NORMAL", floor=4)
+    from rules import dm14 as D
+    ctx.rule("R-FORWARD-NAMES", "CA.send_pgn forwards its parameters by name (held address in the source slot)", floor=1)
+    D.forward_names(ctx, classes=("ControllerApplication",))
     ca.send_sinks(ctx)
     ca.send_guard(ctx)
     ca.claim_only(ctx)
